@@ -65,6 +65,12 @@ def violations_of(R, text):
         if idxs:
             i = R.choice(idxs)
             add(name, text[:i] + rep + text[i + len(pat):])
+    # a comparand with several selectors in one segment (not a singular query)
+    import re as _re
+    ms = [m.start() for m in _re.finditer(r"\]\s*(==|!=|<=|>=|<|>)", text)]
+    if ms:
+        i = R.choice(ms)
+        add("multi-selector-comparand", text[:i] + R.choice([",0", ",'b'", ", 1", ",\"x\""]) + text[i:])
     # a bare literal where a logical expression is required
     idxs = [i for i in range(n) if text[i] in "?("]
     if idxs:
